@@ -25,7 +25,9 @@ META = {
     "models, one per link / decoupling pipe, is exactly the automaton) are proved; the "
     "implementation is tied to the automaton by trace inclusion on generated pipeline shapes (external / called-method / "
     "function stages, pipes, FIFOs of several depths, no_dependency nodes incl. the coupled-transaction use, stages whose "
-    "method validates its arguments (validate_arguments; the automaton's guard), "
+    "method validates its arguments (validate_arguments; the automaton's guard), stages redefining a field with another "
+    "width followed by function stages with inferred input layout, detours through 2-3 external buffers whose "
+    "same-named clear methods are registered with add_external_clear, "
     "allow_unused/allow_empty) with cycle-exact comparison of which combiners ran, the fields they returned/received and "
     "decoupling-pipe entries, and comparison of get_live_signals with the modelled liveness pass",
     "level_note": "PARTIAL by design (DESIGN.md C28): proof of the specification automaton + trace validation of the "
@@ -43,6 +45,11 @@ META = {
 #   shape = {"w": [width of field k], "allow_unused": bool, "allow_empty": bool, "nodes": [node]}
 #   node  = {"kind": "ext"|"call"|"func", "nodep": bool, "fifo": 0 (Pipe) | depth, "req": [field],
 #            "gen": [[field, const, [coef per required field]]], "pair": bool, "vpred": None | [field, mask]}
+#   gen entries may carry a 4th element: the width with which the stage (re)defines the field (default: shape["w"][field]).
+#   "infer": function stage whose input layout is inferred from the parameter names of the stage function (i=None).
+#   kinds "bufw"/"bufr" (with "buf": index into shape["bufs"] = [{"depth": d, "field": f, "w": width}]): the stage calls
+#            `write` resp. `read` of an external buffering module (BasicFifo) through which field f takes a detour; every
+#            buffer's `clear` (all of them are methods named "clear") is registered with add_external_clear.
 #   "vpred": the method the node's required fields are passed to validates its arguments (`validate_arguments`):
 #            `(field & mask) != 0`.  On a "call" node it is the called method; on the external node in front of a
 #            "pair" node it is a method called by the coupling transaction with the fields the node returned.
@@ -67,11 +74,28 @@ def live_after(shape: dict) -> list[list[int]]:
     return res
 
 
+def gen_width(shape: dict, g: list) -> int:
+    """width of a generated field: a stage may (re)define a field with its own shape (4th entry of the gen spec)"""
+    return g[3] if len(g) > 3 else shape["w"][g[0]]
+
+
+def widths_in(shape: dict) -> list[dict]:
+    """per node: width of every field generated so far, as seen in front of the node (the latest definition wins)"""
+    cur: dict[int, int] = {}
+    res = []
+    for nd in shape["nodes"]:
+        res.append(dict(cur))
+        for g in nd["gen"]:
+            cur[g[0]] = gen_width(shape, g)
+    return res
+
+
 def affine(shape: dict, nd: dict, reqvals: dict) -> dict:
     out = {}
-    for f, c, coefs in nd["gen"]:
+    for g in nd["gen"]:
+        f, c, coefs = g[0], g[1], g[2]
         s = c + sum(a * reqvals[k] for a, k in zip(coefs, nd["req"]))
-        out[f] = s % (1 << shape["w"][f])
+        out[f] = s % (1 << gen_width(shape, g))
     return out
 
 
@@ -80,17 +104,27 @@ def make_dut(shape: dict):
     from transactron import Method, TModule, Transaction, def_method
     from transactron.lib.pipeline import PipelineBuilder
 
-    W = shape["w"]
     nodes = shape["nodes"]
+    win = widths_in(shape)
 
-    def lay(fields):
-        return [(fname(k), W[k]) for k in fields]
+    def lay_req(i):
+        return [(fname(k), win[i][k]) for k in nodes[i]["req"]]
+
+    def lay_gen(i):
+        return [(fname(g[0]), gen_width(shape, g)) for g in nodes[i]["gen"]]
 
     def mk_body(nd):
         def body(arg):
-            return {fname(f): c + sum(a * arg[fname(k)] for a, k in zip(coefs, nd["req"])) for f, c, coefs in nd["gen"]}
+            return {fname(g[0]): g[1] + sum(a * arg[fname(k)] for a, k in zip(g[2], nd["req"])) for g in nd["gen"]}
 
         return body
+
+    def mk_named(nd):
+        """stage function with one parameter per required field (the builder infers the input layout from the names)"""
+        names = [fname(k) for k in nd["req"]]
+        ns = {"body": mk_body(nd)}
+        exec(f"def fn({', '.join(names)}):\n    return body({{{', '.join(repr(x) + ': ' + x for x in names)}}})", ns)
+        return ns["fn"]
 
     def mk_pred(vp):
         def pred(arg):
@@ -101,11 +135,11 @@ def make_dut(shape: dict):
     class PipeDut(Elaboratable):
         def __init__(self):
             self.clear = Method()
-            self._int = types.SimpleNamespace(rdy={}, crdy={}, prdy={}, callees={}, builder=None)
+            self._int = types.SimpleNamespace(rdy={}, crdy={}, prdy={}, callees={}, builder=None, bufs=[])
             for i, nd in enumerate(nodes):
                 self._int.rdy[i] = Signal(init=1, name=f"rdy{i}")
                 if nd["kind"] == "ext":
-                    meth = Method(name=f"ext{i}", i=lay([g[0] for g in nd["gen"]]), o=lay(nd["req"]))
+                    meth = Method(name=f"ext{i}", i=lay_gen(i), o=lay_req(i))
                     if nd.get("pair") or (i + 1 < len(nodes) and nodes[i + 1].get("pair")):
                         self._int.callees[i] = meth  # called from the DUT's own transaction
                         if nd.get("pair"):
@@ -119,6 +153,12 @@ def make_dut(shape: dict):
             m = TModule()
             m.submodules.pipeline = p = PipelineBuilder(allow_unused=shape["allow_unused"], allow_empty=shape["allow_empty"])
             self._int.builder = p
+            from transactron.lib.fifo import BasicFifo
+
+            for b, bd in enumerate(shape.get("bufs", [])):
+                buf = BasicFifo([(fname(bd["field"]), bd["w"])], bd["depth"])
+                m.submodules[f"buf{b}"] = buf
+                self._int.bufs.append(buf)
             for i, nd in enumerate(nodes):
                 if nd["fifo"]:
                     p.fifo(nd["fifo"])
@@ -127,8 +167,12 @@ def make_dut(shape: dict):
                 if nd["kind"] == "ext":
                     meth = getattr(self, f"ext{i}", None) or self._int.callees[i]
                     p.add_external(meth, ready=rdy, no_dependency=nd["nodep"])
+                elif nd["kind"] == "bufw":
+                    p.call_method(self._int.bufs[nd["buf"]].write, ready=rdy)
+                elif nd["kind"] == "bufr":
+                    p.call_method(self._int.bufs[nd["buf"]].read, ready=rdy)
                 elif nd["kind"] == "call":
-                    callee = Method(name=f"callee{i}", i=lay(nd["req"]), o=lay(gen_fields))
+                    callee = Method(name=f"callee{i}", i=lay_req(i), o=lay_gen(i))
                     self._int.callees[i] = callee
 
                     kw = {}
@@ -137,20 +181,25 @@ def make_dut(shape: dict):
                     def_method(m, callee, ready=self._int.crdy[i], **kw)(mk_body(nd))
                     p.call_method(callee, ready=rdy, no_dependency=nd["nodep"])
                 else:
-                    p.stage(m, o=lay(gen_fields), i=lay(nd["req"]), name=f"fn{i}", ready=rdy, no_dependency=nd["nodep"])(mk_body(nd))
+                    if nd.get("infer"):
+                        p.stage(m, o=lay_gen(i), name=f"fn{i}", ready=rdy, no_dependency=nd["nodep"])(mk_named(nd))
+                    else:
+                        p.stage(m, o=lay_gen(i), i=lay_req(i), name=f"fn{i}", ready=rdy, no_dependency=nd["nodep"])(mk_body(nd))
             for i, nd in enumerate(nodes):
                 if nd.get("pair"):
                     a, b = self._int.callees[i - 1], self._int.callees[i]
                     prev = nodes[i - 1]
                     chk = None
                     if prev.get("vpred"):
-                        chk = Method(name=f"chk{i}", i=lay(prev["req"]))
+                        chk = Method(name=f"chk{i}", i=lay_req(i - 1))
                         def_method(m, chk, validate_arguments=mk_pred(prev["vpred"]))(lambda arg: None)
                     with Transaction(name=f"pair{i}").body(m, ready=self._int.prdy[i]):
                         got = a(m)
                         if chk is not None:
                             chk(m, got)
-                        b(m, {fname(f): c + sum(co * got[fname(k)] for co, k in zip(coefs, prev["req"])) for f, c, coefs in nd["gen"]})
+                        b(m, {fname(g[0]): g[1] + sum(co * got[fname(k)] for co, k in zip(g[2], prev["req"])) for g in nd["gen"]})
+            for buf in self._int.bufs:
+                p.add_external_clear(buf.clear)
             self.clear.provide(p.clear)
             return m
 
@@ -281,12 +330,15 @@ def parse_rec(s: str) -> dict:
 def cfg_line(shape: dict) -> str:
     toks = ["cfg", "w=" + ",".join(map(str, shape["w"]))]
     for i, nd in enumerate(shape["nodes"]):
-        kind = "E" if nd["kind"] == "ext" else "C"
+        kind = "E" if nd["kind"] in ("ext", "bufr") else "C"  # bufr: the generated field comes from outside the automaton
         cap = nd["fifo"] or 1
         req = ",".join(map(str, nd["req"])) or "-"
-        gen = ";".join(f"{f}:{c}:{'.'.join(map(str, coefs)) or '-'}" for f, c, coefs in nd["gen"]) or "-"
-        if nd["kind"] == "ext":
-            gen = ";".join(f"{f}:0:-" for f, _, _ in nd["gen"]) or "-"
+        def wsuf(g):
+            return f":{g[3]}" if len(g) > 3 else ""
+
+        gen = ";".join(f"{g[0]}:{g[1]}:{'.'.join(map(str, g[2])) or '-'}{wsuf(g)}" for g in nd["gen"]) or "-"
+        if nd["kind"] in ("ext", "bufr"):
+            gen = ";".join(f"{g[0]}:0:-{wsuf(g)}" for g in nd["gen"]) or "-"
         vp = nd.get("vpred")
         toks.append(f"n{i}={kind}/{int(nd['nodep'])}/{cap}/{int(not nd['fifo'])}/{req}/{gen}/{f'{vp[0]}:{vp[1]}' if vp else '-'}")
     return " ".join(toks)
@@ -325,7 +377,7 @@ def observed_tokens(shape: dict, s: dict, cyc: dict) -> str:
     t = [f"c={int(cyc['clear'])}"]
     for i, (nd, o) in enumerate(zip(shape["nodes"], cyc["nodes"])):
         x = "-"
-        if o["fired"] and nd["kind"] == "ext" and not nd["nodep"]:
+        if o["fired"] and nd["kind"] in ("ext", "bufr") and not nd["nodep"]:
             x = rec_str(o["gen"])  # what the caller supplied (as the combiner received it)
         ent = "n"
         if o["ent"] is not None:
@@ -447,6 +499,8 @@ def monitor(case: Case, out: list[str]):
     pend: list[list[dict]] = [[] for _ in range(n + 1)]  # pend[i]: produced by node i-1, not yet consumed by node i
     npend: list[list[dict]] = [[] for _ in range(n)]  # decoupling pipe of node i
     seq = [0] * n  # how many times each node ran since the last clear
+    bufs = shape.get("bufs", [])
+    refbuf: list[list[int]] = [[] for _ in bufs]  # reference content of the external buffers (cleared by the pipeline's clear)
     t = -1
     for op, o in zip(case.ops, out[1:]):
         if not op.startswith("cyc"):
@@ -458,6 +512,8 @@ def monitor(case: Case, out: list[str]):
             return f"cycle {t}: malformed observation"
         pushes = {}
         npushes = {}
+        bpush: dict[int, int] = {}
+        bpop: list[int] = []
         # progress: in a cycle in which every stage, callee and coupling transaction is ready, every caller of a
         # non-source external stage attempts its call and clear is not called, the most downstream waiting item must
         # move on (its stage has its input and nothing in front of it) unless the argument validation of the stage's
@@ -477,6 +533,10 @@ def monitor(case: Case, out: list[str]):
                 vp = ndj.get("vpred")
                 refused = bool(vp) and (pend[j][0].get(vp[0], 0) & vp[1]) == 0
                 legit = refused or (ndj["nodep"] and not npend[j]) or (j + 1 < n and nodes[j + 1].get("pair") and bool(npend[j + 1]))
+                if ndj["kind"] == "bufr":
+                    legit = legit or not refbuf[ndj["buf"]]
+                if ndj["kind"] == "bufw":
+                    legit = legit or len(refbuf[ndj["buf"]]) >= bufs[ndj["buf"]]["depth"]
                 if not legit and len(cyc) == n and not cyc[j]["fired"]:
                     return (
                         f"cycle {t}: item {pend[j][0]} waits in front of stage {j} with every stage, callee and caller ready and "
@@ -518,6 +578,17 @@ def monitor(case: Case, out: list[str]):
                 g = npend[i][0]
                 if ob["gen"] != g:
                     return f"cycle {t}: stage {i} took {ob['gen']} from its decoupling pipe, the oldest entry is {g}"
+            elif nd["kind"] == "bufr":
+                b = nd["buf"]
+                if not refbuf[b]:
+                    return (
+                        f"cycle {t}: stage {i} read {ob['gen']} from external buffer {b}, which holds nothing written since the last "
+                        f"clear (an item parked in the external module survived clear / was read twice)"
+                    )
+                g = {bufs[b]["field"]: refbuf[b][0]}
+                if ob["gen"] != g:
+                    return f"cycle {t}: stage {i} read {ob['gen']} from external buffer {b}, the oldest item written to it since the last clear is {g}"
+                bpop.append(b)
             elif nd["kind"] == "ext" and i + 1 < n and nodes[i + 1].get("pair"):
                 g = {}  # called (without arguments) by the DUT's own coupling transaction
             elif nd["kind"] == "ext":
@@ -531,6 +602,8 @@ def monitor(case: Case, out: list[str]):
                 g = affine(shape, nd, want_ret)
                 if ob["gen"] != g:
                     return f"cycle {t}: stage {i} computed {ob['gen']} from {want_ret}, the stage function gives {g}"
+            if nd["kind"] == "bufw":
+                bpush[nd["buf"]] = want_ret[bufs[nd["buf"]]["field"]]
             pushes[i + 1] = {k: (g[k] if k in genf else r.get(k)) for k in live[i]}
         for i, ob in enumerate(cyc):
             if ob["fired"]:
@@ -543,12 +616,17 @@ def monitor(case: Case, out: list[str]):
             pend[i].append(v)
         for i, v in npushes.items():
             npend[i].append(v)
+        for b in bpop:
+            refbuf[b].pop(0)
+        for b, v in bpush.items():
+            refbuf[b].append(v)
         if stim["clear"] and not cleared:
             return f"cycle {t}: clear attempted but did not run"
         if cleared:
             pend = [[] for _ in range(n + 1)]
             npend = [[] for _ in range(n)]
             seq = [0] * n
+            refbuf = [[] for _ in bufs]  # the external clear hooks are part of the pipeline's clear
     return None
 
 
@@ -606,6 +684,54 @@ DIRECTED = {
             ("ext", [0], []),
         ],
     },
+    "widen_inferred": {  # a stage redefines a live field with a wider shape; later consumers infer their input layout
+        "w": [8, 16],
+        "nodes": [
+            ("ext", [], [[0, 0, []]]),
+            ("func", [0], [[0, 0, [300], 16]], {"infer": True}),
+            ("func", [0], [[1, 1, [1]]], {"infer": True}),
+            ("ext", [1], []),
+        ],
+    },
+    "narrow_then_widen": {
+        "w": [8, 8],
+        "nodes": [
+            ("ext", [], [[0, 0, []], [1, 0, []]]),
+            ("call", [0, 1], [[0, 3, [1, 1], 4]]),
+            ("func", [0, 1], [[1, 5, [77, 3], 12]], {"infer": True, "fifo": 2}),
+            ("func", [0, 1], [[0, 0, [1, 1], 13]], {"infer": True}),
+            ("func", [0], [[1, 9, [5]]], {"infer": True}),
+            ("ext", [0, 1], []),
+        ],
+    },
+    "detour_two_buffers": {  # seeded/C28-6 demo shape: data takes a detour through two external FIFOs, tag is carried along
+        "w": [8, 8],
+        "bufs": [{"depth": 4, "field": 0, "w": 8}, {"depth": 4, "field": 0, "w": 8}],
+        "nodes": [
+            ("ext", [], [[0, 0, []], [1, 0, []]]),
+            ("bufw", [0], [], {"buf": 0}),
+            ("bufr", [], [[0, 0, []]], {"buf": 0}),
+            ("bufw", [0], [], {"buf": 1}),
+            ("bufr", [], [[0, 0, []]], {"buf": 1}),
+            ("ext", [0, 1], []),
+        ],
+    },
+    "detour_three_buffers": {
+        "w": [8, 5],
+        "allow_empty": True,
+        "bufs": [{"depth": 2, "field": 0, "w": 8}, {"depth": 3, "field": 1, "w": 5}, {"depth": 1, "field": 0, "w": 8}],
+        "nodes": [
+            ("ext", [], [[0, 0, []], [1, 0, []]]),
+            ("bufw", [0], [], {"buf": 0}),
+            ("bufw", [1], [], {"buf": 1, "fifo": 2}),
+            ("bufr", [], [[0, 0, []]], {"buf": 0}),
+            ("func", [0], [[0, 1, [1]]]),
+            ("bufw", [0], [], {"buf": 2}),
+            ("bufr", [], [[1, 0, []]], {"buf": 1}),
+            ("bufr", [], [[0, 0, []]], {"buf": 2, "fifo": 3}),
+            ("ext", [0, 1], []),
+        ],
+    },
     "fifo1": {"w": [3], "nodes": [("ext", [], [[0, 0, []]]), ("func", [0], [[0, 1, [1]]], {"fifo": 1}), ("ext", [0], [], {"fifo": 1})]},
     "const_source": {"w": [8, 8], "nodes": [("func", [], [[0, 7, []]]), ("ext", [0], [[1, 0, []]]), ("ext", [0, 1], [], {"fifo": 2})]},
 }
@@ -618,9 +744,9 @@ def directed_shape(name: str) -> dict:
         extra = nd[3] if len(nd) > 3 else {}
         nodes.append(
             {"kind": nd[0], "nodep": bool(extra.get("nodep")), "fifo": extra.get("fifo", 0), "req": list(nd[1]), "gen": [list(g) for g in nd[2]], "pair": bool(extra.get("pair")),
-             "vpred": extra.get("vpred")}
+             "vpred": extra.get("vpred"), "infer": bool(extra.get("infer")), **({"buf": extra["buf"]} if "buf" in extra else {})}
         )
-    return {"w": d["w"], "allow_unused": bool(d.get("allow_unused")), "allow_empty": bool(d.get("allow_empty")), "nodes": nodes}
+    return {"w": d["w"], "bufs": d.get("bufs", []), "allow_unused": bool(d.get("allow_unused")), "allow_empty": bool(d.get("allow_empty")), "nodes": nodes}
 
 
 def random_shape(rng, n: int) -> dict:
@@ -676,8 +802,19 @@ def random_shape(rng, n: int) -> dict:
         live = live_after(shape)
         if not all(live[:-1]):
             shape["allow_empty"] = True
+    # a stage may redefine a field that already exists with another width; function stages may infer their input layout
+    seen = set()
+    for nd in nodes:
+        for g in nd["gen"]:
+            if g[0] in seen and rng.random() < 0.4:
+                g.append(rng.choice([x for x in (2, 4, 6, 10, 12, 16) if x != W[g[0]]]))
+                g[1] = rng.randrange(1 << g[3])
+        seen |= {g[0] for g in nd["gen"]}
+        nd["infer"] = nd["kind"] == "func" and rng.random() < 0.6
+    win = widths_in(shape)
     # argument-validated methods: a called method, or the method an external stage's fields are fed to by the coupling transaction
     for i, nd in enumerate(nodes):
+        W = win[i]
         cand = [k for k in nd["req"] if W[k] >= 3]
         target = (nd["kind"] == "call" and not nd["nodep"]) or (nd["kind"] == "ext" and i + 1 < n and nodes[i + 1]["pair"])
         if target and cand and rng.random() < 0.45:
@@ -685,7 +822,33 @@ def random_shape(rng, n: int) -> dict:
             full = (1 << W[f]) - 1
             mask = full if rng.random() < 0.5 else (full & (rng.getrandbits(W[f]) | 0b111))  # most values pass
             nd["vpred"] = [f, mask]
+    shape["bufs"] = []
+    if rng.random() < 0.3:
+        insert_bufs(rng, shape, rng.choice([2, 2, 3]))
     return shape
+
+
+def insert_bufs(rng, shape: dict, count: int) -> None:
+    """detours of a field through external buffering modules (BasicFifo) whose `clear`s are registered as external clears"""
+    nodes = shape["nodes"]
+    for _ in range(count):
+        win = widths_in(shape)
+        pos = [p for p in range(1, len(nodes)) if not nodes[p].get("pair") and win[p]]
+        if not pos:
+            return
+        p = rng.choice(pos)
+        f = rng.choice(sorted(win[p]))
+        w = win[p][f]
+        b = len(shape["bufs"])
+        shape["bufs"].append({"depth": rng.choice([1, 2, 4]), "field": f, "w": w})
+        base = {"nodep": False, "pair": False, "vpred": None, "infer": False, "buf": b}
+        wr = {"kind": "bufw", "fifo": rng.choice([0, 0, 2]), "req": [f], "gen": [], **base}
+        rd = {"kind": "bufr", "fifo": rng.choice([0, 0, 3]), "req": [], "gen": [[f, 0, [], w]], **base}
+        between = nodes[p]["kind"] != "ext" and p + 1 < len(nodes) and rng.random() < 0.4
+        nodes.insert(p, wr)
+        nodes.insert(p + 2 if between else p + 1, rd)
+    shape["allow_unused"] = True
+    shape["allow_empty"] = True
 
 
 DRAIN = 14
@@ -704,7 +867,6 @@ PROFILES = {
 def random_stims(rng, shape: dict, length: int, prof: dict, drain: int = 0) -> list[dict]:
     nodes = shape["nodes"]
     n = len(nodes)
-    W = shape["w"]
     adapters = [
         i for i, nd in enumerate(nodes) if nd["kind"] == "ext" and not nd.get("pair") and not (i + 1 < n and nodes[i + 1].get("pair"))
     ]
@@ -716,7 +878,7 @@ def random_stims(rng, shape: dict, length: int, prof: dict, drain: int = 0) -> l
             p = prof["src"] if i == 0 else prof["snk"] if i == n - 1 else prof["mid"]
             if i == n - 1 and blocked:
                 p = 0.0
-            args[i] = {g[0]: rng.randrange(1 << W[g[0]]) for g in nodes[i]["gen"]} if rng.random() < p else None
+            args[i] = {g[0]: rng.randrange(1 << gen_width(shape, g)) for g in nodes[i]["gen"]} if rng.random() < p else None
         stims.append(
             {
                 "clear": rng.random() < prof["clear"],
@@ -730,7 +892,7 @@ def random_stims(rng, shape: dict, length: int, prof: dict, drain: int = 0) -> l
         stims.append(
             {
                 "clear": False,
-                "args": {i: (None if i == 0 else {g[0]: rng.randrange(1 << W[g[0]]) for g in nodes[i]["gen"]}) for i in adapters},
+                "args": {i: (None if i == 0 else {g[0]: rng.randrange(1 << gen_width(shape, g)) for g in nodes[i]["gen"]}) for i in adapters},
                 "rdy": {i: 1 for i in range(n)},
                 "crdy": {i: 1 for i, nd in enumerate(nodes) if nd["kind"] == "call"},
                 "prdy": {i: 1 for i, nd in enumerate(nodes) if nd.get("pair")},
@@ -769,8 +931,8 @@ def gen_cases(ctx: Check) -> list[Case]:
     jobs = []
     for name in DIRECTED:
         shape = directed_shape(name)
-        jobs.append((shape, [(rng.getrandbits(32), p) for p in ctx.pick(["free", "stalls", "clears", "slow_sink"], profs)], length, "directed"))
-    n_random = ctx.pick(24, 150)
+        jobs.append((shape, [(rng.getrandbits(32), p) for p in ctx.pick(["stalls", "clears", "slow_sink"], profs)], length, "directed"))
+    n_random = ctx.pick(22, 150)
     for k in range(n_random):
         shape = random_shape(rng, rng.choice([2, 3, 3, 4, 4, 5, 6, 7]))
         ps = [profs[(k + j) % len(profs)] for j in range(ctx.pick(3, 4))]
@@ -842,6 +1004,10 @@ def run(ctx: Check):
             kinds[key] = kinds.get(key, 0) + 1
             if nd.get("vpred"):
                 kinds["validated"] = kinds.get("validated", 0) + 1
+            if nd.get("infer"):
+                kinds["inferred_input"] = kinds.get("inferred_input", 0) + 1
+            if any(len(g) > 3 for g in nd["gen"]) and nd["kind"] != "bufr":
+                kinds["redefines_width"] = kinds.get("redefines_width", 0) + 1
             if nd["fifo"]:
                 kinds[f"fifo_depth_{nd['fifo']}"] = kinds.get(f"fifo_depth_{nd['fifo']}", 0) + 1
     for k, v in sorted(kinds.items()):
